@@ -182,7 +182,7 @@ def verifier_model(chk, model, hscan, cases, meta, out, corder):
         acases.append(("a%d" % n, ["newcompiler", "add " + hx(src.encode()), "getrules", "save", "scanner 0"] + ["scan " + hx(b[0]) for b in bl]))
         ameta["a%d" % n] = (cid, si, bl)
     if acases:
-        aout, _ = vlib.run_cases(hscan, acases, timeout=3000)
+        aout, _ = vlib.run_cases(hscan, acases, timeout=3000, jobs=16)
         q1, q2, order = [], [], []
         for aid, _ in acases:
             cid, si, bl = ameta[aid]
@@ -262,8 +262,18 @@ def base64_part(chk, model, hscan):
             perm = list(B64STD)
             r.shuffle(perm)
             alpha = bytes(perm)
-        elif r.chance(1, 4):
+        elif r.chance(1, 3):
             alpha = B64STD[:62] + bytes([r.choice(b"-_.!*"), r.choice(b",;:#@")])
+        elif r.chance(1, 2):
+            # an alphabet with the characters that mean something in a regular expression, and arbitrary bytes
+            pool = list(b"\\^$|()[]*?{},.+}-/ \"'#") + [0x0A, 0x0D, 0x09, 0x7F, 0x80, 0xFF, 0x01] + list(range(0x30, 0x7B))
+            seen, al = set(), []
+            r.shuffle(pool)
+            for c in pool:
+                if c not in seen:
+                    seen.add(c)
+                    al.append(c)
+            alpha = bytes(al[:64])
         # ascii / wide act on the plaintext (it is widened BEFORE being encoded), base64 / base64wide on the encoded form
         tw = r.choice(["", "", "wide", "ascii wide"])
         plaintexts = ([text] if tw != "wide" else []) + ([widen(text)] if tw else [])
@@ -290,7 +300,7 @@ def base64_part(chk, model, hscan):
         bufs.append(b64enc(alpha, b"x" + plaintexts[-1]) + b64enc(alpha, b"xy" + plaintexts[0] + b"z"))
         cases.append(("b%d" % i, ["newcompiler", "add " + hx(src.encode()), "getrules", "scanner 0"] + ["scan " + hx(b) for b in bufs]))
         meta["b%d" % i] = (src, plaintexts, alpha, plain, wide, bufs)
-    out, err = vlib.run_cases(hscan, cases, timeout=3000)
+    out, err = vlib.run_cases(hscan, cases, timeout=3000, jobs=16)
     q, order = [], []
     for cid, _ in cases:
         src, plaintexts, alpha, plain, wide, bufs = meta[cid]
@@ -394,7 +404,7 @@ def run(chk):
         cmds = ["newcompiler", "add " + hx(src.encode()), "getrules", "save", "scanner 0"] + ["scan " + hx(b) for b in bufs]
         cases.append(("t%d" % i, cmds))
         meta["t%d" % i] = (src, strings, bufs)
-    out, err = vlib.run_cases(hscan, cases, timeout=3000)
+    out, err = vlib.run_cases(hscan, cases, timeout=3000, jobs=16)
     mq = []
     order = []
     for cid, _ in cases:
